@@ -5,7 +5,15 @@
    underflow: IEEE rounding then obeys  fl(v) = v (1 + d) + e,  |d| <= 2^-53, |e| <= 2^-1075  (Flocq error_N_FLT),
    and the computed x solves a nearby system exactly up to an ABSOLUTE residual of a few 2^-1075 per row:
         a_i (1+ea) x_(i-1) + ( b_i (1+eb) + a_i gamma_i eg ) x_i + c_i (1+ec) x_(i+1) = r_i + dr_i
-        |dr_i| <= 2^-1075 (1 + 2 |a_i| + 3 |beta_i|). *)
+        |dr_i| <= 2^-1075 (1 + 2 |a_i| + 3 |beta_i|).
+     thomas_backward_error_float_uf_lemma   : any matrix; finite answer, finite pivots, matrix part free of underflow
+     thomas_dominant_float_uf_partial_lemma : dominant + scaled matrices (Round2Thomas.v): a finite answer is backward stable
+                                              up to |dr_i| <= 2^-1075 (1 + 11 |b_i|).  PARTIAL: finiteness of the answer is assumed.
+     thomas_dominant_float_lemma            : HYPOTHESES ON THE DATA ONLY, every n: entries finite, 2^-300 <= |b_i| <= 2^300,
+                                              off-diagonals zero or >= 2^-300, |r_i| <= 2^300, 2(|a_i| + |c_i|) <= |b_i|.  Then solve
+                                              answers, every x_i is finite and x is backward stable up to 2^-1075 (1 + 11|b_i|).
+                                              Overflow is excluded by induction along the two sweeps in the floats:
+                                              |gamma_k| <= 0.51, |beta_k| >= 0.7 |b_k|, |y_k| <= 2^603, |x_k| <= 2^605. *)
 From Coq Require Import ZArith Reals Lra Lia List Floats Bool Arith Psatz.
 From Flocq Require Import Core BinarySingleNaN PrimFloat Relative Plus_error.
 From OV Require Import Base.Panic Base.Arith Base.RoundModel Model.Vector Model.Matrix Model.Tridiag Inst.FloatInst
@@ -293,8 +301,9 @@ Proof.
     pose proof (Rabs_pos b). pose proof (Rabs_pos (b - a * g * (1 + d2))). nra.
 Qed.
 
-(* ---------------------------------------------------------------- Theorem 2u: dominant systems, matrix part from the data, underflow allowed in the right-hand-side part *)
-Theorem thomas_dominant_float_uf_lemma (t : tridiag AF) (r : list pfloat) :
+(* ---------------------------------------------------------------- Theorem 2u (partial): dominant systems, matrix part from the data, underflow allowed in the
+   right-hand-side part.  Gap to a statement on the data only: the answer is assumed finite. *)
+Theorem thomas_dominant_float_uf_partial_lemma (t : tridiag AF) (r : list pfloat) :
   wfT t -> (1 <= tn t)%nat -> length r = tn t -> tri_finite t -> tri_scaled t -> dominant_f t ->
   exists x, tsolve (A := AF) t r = Ok x /\ length x = tn t /\
     ((forall i, (i < tn t)%nat -> ffinite (nth i x 0%float)) ->
@@ -568,7 +577,7 @@ Proof.
 Qed.
 
 (* Theorem 4: strongly dominant systems with entries in [2^-300, 2^300]: solved, finite, backward stable up to 2^-1075 per row *)
-Theorem thomas_dominant_float_data_lemma :
+Theorem thomas_dominant_float_lemma :
   exists x, tsolve (A := AF) t r = Ok x /\ length x = tn t /\
     (forall i, (i < tn t)%nat -> ffinite (nth i x 0%float)) /\
     forall i, (i < tn t)%nat -> exists da db dc dr,
@@ -580,7 +589,7 @@ Theorem thomas_dominant_float_data_lemma :
       + (FR (nth i (tmain t) 0%float) + db) * FR (nth i x 0%float)
       + (FR (nth i (tsup t) 0%float) + dc) * FR (nth (i + 1) x 0%float) = FR (nth i r 0%float) + dr.
 Proof.
-  destruct (thomas_dominant_float_uf_lemma t r W Hn Hr HF HS strong_dominant_f) as (x & E & Lx & St).
+  destruct (thomas_dominant_float_uf_partial_lemma t r W Hn Hr HF HS strong_dominant_f) as (x & E & Lx & St).
   exists x. split; [exact E|]. split; [exact Lx|].
   assert (Fx : forall i, (i < tn t)%nat -> ffinite (nth i x 0%float)).
   { intros i Hi. now destruct (x_bound x E (tn t - 1 - i)%nat i ltac:(lia)) as (F & _). }
@@ -610,7 +619,7 @@ Proof.
 Qed.
 
 (* a right-hand side for which the forward sweep DOES underflow: r = [2^-1060; 0; 0] gives y_0 = 2^-1062 and the product
-   sub_0 * y_0 = 2^-1062 is subnormal; the data hypotheses of thomas_dominant_float_data_lemma hold nevertheless *)
+   sub_0 * y_0 = 2^-1062 is subnormal; the data hypotheses of thomas_dominant_float_lemma hold nevertheless *)
 Definition exU_r : list pfloat := [0x1p-1060%float; 0%float; 0%float].
 Lemma exU_underflows :
   (forall i, (i < tn exT_t)%nat -> ffinite (nth i exU_r 0%float) /\ Rabs (FR (nth i exU_r 0%float)) <= bpow radix2 300) /\
